@@ -132,7 +132,7 @@ def step' (cap : Capture) (d : DS) (ws : List String) : DS × String :=
     | none => (d, "bad-op")
     | some (k, np, bun) =>
       if mode == "sel" || (mode == "swc" && k != .fix) then
-        ({ d with shape := s, cfg := { kind := k, bundle := bun, cap := cap }, npos := np }, "ok")
+        ({ d with shape := s, cfg := { kind := k, bundle := bun, sw := mode == "swc", cap := cap }, npos := np }, "ok")
       else (d, "bad-op")
   | "c" :: rest =>
     if d.shape == "" || rest.isEmpty || rest.length > 3 then (d, "bad-op") else
